@@ -126,7 +126,7 @@ fn uf_pll(f: u32) -> u32 {
 pub(crate) fn uf_reset() {
     unsafe { UF_PLL.v = (false, 0, 0); }
 }
-pub(crate) fn uf_pll126<SPI.v, IV.v, C>(f: u32) -> u32 {
+pub(crate) fn uf_pll126<S, I, C>(f: u32) -> u32 {
     uf_pll(f)
 }
 pub(crate) fn uf_pll127(f: u32) -> u32 {
